@@ -764,14 +764,27 @@ pub fn cmd_drive(args: &[String]) -> i32 {
     let mut id: i64 = 1;
     let (mut events, mut done, mut transfers_total, mut maxparts) = (0u64, 0u64, 0u64, 0usize);
     for run_no in 1..=runs {
-        let consistent = rng.gen_range(0..8) != 0;
-        let ntr = rng.gen_range(1..=8);
-        let ticks = pick_ticks(&mut rng, ntr);
+        // The first three runs of every invocation are boundary runs: the part-count limits (31 parts,
+        // 32 parts with a 1-byte and with a full last part) and the smallest lengths, all parts delivered
+        // in shuffled order with duplicates; run 1 tick by tick, runs 2 and 3 with interleaved ticks.
+        let boundary = run_no <= 3;
+        let consistent = boundary || rng.gen_range(0..8) != 0;
         let mut transfers = Vec::new();
-        for &t in &ticks {
-            let b = pick_base(&mut rng, t);
-            transfers.push(Transfer { id, t, b, len: pick_len(&mut rng), crc: rng.gen() });
-            id += 1;
+        if boundary {
+            for (k, &len) in [27900usize, 27901, 28800, 0, 900, 901, 1].iter().enumerate() {
+                let t = 10 * (k as i32 + 1) + run_no as i32;
+                let b = if k % 2 == 0 { -1 } else { t - 3 };
+                transfers.push(Transfer { id, t, b, len, crc: rng.gen() });
+                id += 1;
+            }
+        } else {
+            let ntr = rng.gen_range(1..=8);
+            let ticks = pick_ticks(&mut rng, ntr);
+            for &t in &ticks {
+                let b = pick_base(&mut rng, t);
+                transfers.push(Transfer { id, t, b, len: pick_len(&mut rng), crc: rng.gen() });
+                id += 1;
+            }
         }
         if !consistent {
             // a second transfer on an existing tick, with other attributes
@@ -792,7 +805,7 @@ pub fn cmd_drive(args: &[String]) -> i32 {
         // deliveries: every message once or twice (or not at all), roughly in tick order with noise
         let mut order: Vec<i32> = transfers.iter().map(|t| t.t).collect();
         order.sort();
-        let noise = [0.0, 0.6, 1.5, 4.0][rng.gen_range(0..4)];
+        let noise = if boundary { [0.0, 0.0, 0.3, 0.8][run_no] } else { [0.0, 0.6, 1.5, 4.0][rng.gen_range(0..4)] };
         let mut dels: Vec<(f64, i64, usize)> = Vec::new();
         for t in &transfers {
             let n = match &run.chunks[&t.id] {
@@ -803,7 +816,7 @@ pub fn cmd_drive(args: &[String]) -> i32 {
             let rank = order.iter().position(|&x| x == t.t).unwrap() as f64;
             let mut js: Vec<usize> = (0..n).collect();
             js.shuffle(&mut rng);
-            let lose = rng.gen_range(0..6) == 0;
+            let lose = !boundary && rng.gen_range(0..6) == 0;
             for (pos, j) in js.into_iter().enumerate() {
                 let copies = match rng.gen_range(0..10) {
                     0 if lose => 0,
